@@ -29,6 +29,46 @@ failing-input search):
                `@property` reads (inlined from their own translated bodies), and calls listed in the
                target's CALL MAP (e.g. `self._battery.charge(..)` ↦ a bind on `Battery.charge`).
 
+Extensions of the subset (groups Fit, Net, Analysis, Queue, Tariff — all general and mechanical):
+
+  path targets     a function is addressed by its chain of `def`/`class` names (`path=`), so INNER functions are
+                   targets of their own.  Their closure variables (free names bound in an enclosing function
+                   scope, computed from the AST) become leading parameters, in binding order; own parameters
+                   and closure variables are matched BY POSITION (`_resolved`), so renaming them is harmless.
+                   An inner `def` statement makes the name callable from then on; a call `g(a, k=b)` of a
+                   translated inner / module-level function is a call of its translation (keywords and numeric
+                   default values are filled in from g's signature; closure variables are read from the
+                   caller's current environment — Python closures are late-binding).  A function passed as an
+                   argument is the partial application to its closure variables; `f(x)` for a parameter
+                   `f : K → K` is an application.
+  kind 'except'    `return e` ↦ `.ok e`, `raise E` ↦ `.error`, `x = g(..)` for an 'except' callee ↦ a bind,
+                   `return g(..)` ↦ a tail call.
+  fuel             a self-recursive function (tail calls only) takes `fuel : Nat`: `match fuel with
+                   | 0 => .error <rec_err> | fuel + 1 => body` — Python's recursion depth; callers hand their own
+                   `fuel` down.  Recursion without `fuel=True` is `Unsupported`.
+  for loops        `for x in xs: BODY` + REST with `xs` a local list literal (`[..]` / `np.array([..])`), no
+                   loop-carried state, exits by return / raise / continue / end of body only: an auxiliary
+                   definition `<f>_loop` by recursion on the list (`[]` ↦ REST, `x :: rest'` ↦ BODY with
+                   `continue` ↦ the call on `rest'`).
+  counts           `len(c)`, `sum(1 for v in c if p)` over a declared collection are `Nat`s (`.length` of the
+                   filtered list), cast exactly where Python converts the int; `sum(e for v in c if p)` is
+                   `sumK` of the mapped list; `[v for v in c if p]` is `List.filter`; an element's attributes /
+                   properties are read through the collection's declaration (a property is inlined from its
+                   own single-`return` body, possibly in another file).
+  integers         comparisons between `Nat` / `Int` atoms (parameters, declared inputs, counts) are decided in
+                   that type (literals are typed accordingly); pairs of naturals compare lexicographically
+                   as Python tuples do.
+  Optional args    `if x is None: x = e` for a parameter `x : Option T` ↦ `match x with | none => e | some v => v`.
+  declared inputs  `inputs={source text: binder}`: an untranslatable sub-expression is an INPUT of the
+                   definition (refused if it mentions a local the translated part has assigned); a parameter of
+                   type "-" is in the Python signature but may not be read; `attrs={a: "@"}` tracks `self.a`
+                   like a local (readable once assigned); `self.m()` of a single-`return` method is inlined.
+  selectors        `_sel_prefix` (leading run of assignments; results = the locals the rest reads, in the order
+                   it first reads them), `_sel_final_return` (the last `return` over the assignments before
+                   it; constant guards are not part of it), `_sel_while_test`, `_sel_loop_test`, and the scalar
+                   (one index) reading of numpy broadcast expressions in `_NpTr`.
+  Anything that does not fit raises `Unsupported`: the definition is not emitted and its tie stops compiling.
+
 Python semantics that are NOT translated (recorded in the trusted base): `ZeroDivisionError` of float
 division (the tie theorems are stated for the inputs on which the hand model does not report
 `zeroDivision`), NaN/inf corner cases of comparisons, exceptions' messages.
@@ -1867,7 +1907,7 @@ def gen_code(group: str) -> str:
             out.append("")
             status.append((t.lean_name, "ok"))
             done[t.lean_name] = "ok"
-        except (Unsupported, SyntaxError, KeyError, AttributeError, IndexError, TypeError, ValueError) as e:
+        except Exception as e:  # whatever goes wrong, the definition is simply not emitted
             # the definition is NOT emitted: the tie theorem that names it no longer compiles
             msg = str(e).replace("-/", "- /")
             out.append(f"/- {t.rel}: {t.doc}: NOT TRANSLATED — {type(e).__name__}: {msg} -/")
@@ -1889,7 +1929,7 @@ def gen_code(group: str) -> str:
                 out.append(body)
                 out.append("")
                 status.append((t.lean_name, "ok"))
-            except (Unsupported, SyntaxError, KeyError, AttributeError, IndexError, TypeError, ValueError) as e:
+            except Exception as e:  # whatever goes wrong, the definition is simply not emitted
                 msg = str(e).replace("-/", "- /")
                 out.append(f"/- {t.rel}: {t.doc}: NOT TRANSLATED — {type(e).__name__}: {msg} -/")
                 out.append("")
